@@ -46,7 +46,7 @@ func moneyDst(kept bool) *DstCfg {
 	d := &DstCfg{Asset: "USD", Accts: ws(0, "x", "a"), VarAccts: ws(0, "$u"),
 		Caps:     cat(ws(0, "2"), ws(1, "-1", "0")),
 		Vecs:     []PortVec{{[]string{"1/2", "1/2"}, 0}, {[]string{"1/3", "remaining"}, 0}, {[]string{"remaining", "2/3", "2/3"}, 1}, {[]string{"3/4", "1/2", "remaining"}, 1}},
-		NClauses: ws(0, "1"),
+		NClauses: cat(ws(0, "1"), ws(1, "2")),
 		WKept:    1, WVar: 1, WInorder: 1, WAllot: 1}
 	if !kept {
 		d.WKept = -1
@@ -90,6 +90,9 @@ func runMoney(w *mc.Worker, id string) {
 		})
 	}
 	stage("pow2-w1", "source+destination trees of joint weight <= 1; balances and amounts in {0,1,2^63-1,2^63,2^64-1,2^64,2^64+1,2^65}", 1, 1, 1, pow2Dom(), pow2Dom())
+	runVarSeqSpace(w, "vars-L2", 1, 2, func(c *seqCase, vars map[string]string, bal env.Bal) {
+		judgeSeqCase(w, c, vars, bal, owns, nontriv, id == "C02")
+	})
 	if w.Tier == "quick" {
 		stage("send-w2", "source+destination trees of joint weight <= 2, depth <= 1; balances {0,1,3,-2}^2; amounts {0,1,2,4,7}", 2, 1, 1, balQ, amtQ)
 		seq("seq-L2", "all statement sequences of length <= 2 over the 28-statement alphabet (<= 1 deviation statement) x sheets a in {0,1,3,6,-2}, b in {0,2,-2}, x in {0,2}", 2, 1, sheetsQ)
